@@ -48,10 +48,15 @@ def make_items(ctx, only=None):
         items[name] = {'name': name, 'path': path, 'fixpoint': plain.exit == 0 and plain.stdout == body, 'plain_exit': plain.exit,
                        'diff_exit': diff.exit, 'W': ob['writes'], 'tmp_bytes': ob['bytes_w'],
                        'bytes_at_system': diff.res['simf'].get('bytes_at_system', [0])[0], 'system_calls': diff.res['simf'].get('system_calls', 0)}
+    ctx.memo.setdefault('items', {}).update(items)
     return items
 
 
-KINDS = ['none', 'short-ok', 'enospc', 'eio-once', 'short-then-enospc', 'open-fail']
+KINDS = ['none', 'short-ok', 'enospc', 'eio-once', 'short-then-enospc', 'open-fail', 'twin', 'twin']
+# 'twin': a second, concurrent `abilint --diff` (a whole run of the same executable, started by the helper process) on a
+# *different* document that has the *same file name* in another directory, scheduled by the simulator at one instant of
+# the first run: before its temporary file is opened, before its k-th write, before its close, or before its `diff`.
+TWIN_AT = ['system', 'system', 'open', 'write', 'close']
 
 
 def plan_faults(rng, kind, W):
@@ -71,6 +76,11 @@ def plan_faults(rng, kind, W):
     return []
 
 
+def plan_twin(rng, names, W):
+    at = rng.choice(TWIN_AT)
+    return {'doc': rng.choice(names), 'at': at, 'k': rng.below(max(W, 1)) if at == 'write' else 0}
+
+
 def make_plans(ctx, tier, items):
     plans = []
     names = sorted(items)
@@ -79,12 +89,18 @@ def make_plans(ctx, tier, items):
             rng = C.Prng(C.mix_seed(ctx.seed, 3, 0, i))
             it = items[rng.choice(names)]
             kind = rng.choice(KINDS)
-            plans.append({'item': it['name'], 'params': {'kind': kind, 'faults': plan_faults(rng, kind, it['W'])}})
+            p = {'kind': kind, 'faults': plan_faults(rng, kind, it['W'])}
+            if kind == 'twin':
+                p['twin'] = plan_twin(rng, names, it['W'])
+            plans.append({'item': it['name'], 'params': p})
         return plans
     i = 0
     for n in names:
         it = items[n]
-        for kind in KINDS:
+        for j, other in enumerate(names):
+            for at in ('system', 'open', 'close', 'write'):
+                plans.append({'item': n, 'params': {'kind': 'twin', 'faults': [], 'twin': {'doc': other, 'at': at, 'k': (j * 7) % max(it['W'], 1) if at == 'write' else 0}}})
+        for kind in KINDS[:6]:
             ks = range(max(it['W'], 1)) if kind in ('short-ok', 'enospc', 'eio-once', 'short-then-enospc') else [0, 1] if kind == 'open-fail' else [0]
             for k in ks:
                 rng = C.Prng(C.mix_seed(ctx.seed, 3, 1, i)); i += 1
@@ -102,9 +118,31 @@ def make_plans(ctx, tier, items):
 
 def execute(ctx, it, params):
     fl = params['faults']
-    t = tmpl(it['path'], True)
-    t['simf']['faults'] = fl
-    o = ctx.run('abilint', t)
+    tw = params.get('twin')
+    prepare = None
+    twin_exit = None
+    if tw:
+        if tw['doc'] not in ctx.memo.get('items', {}):
+            make_items(ctx, only=tw['doc'])      # replay of a single plan: the twin's document has to be known too
+        other = ctx.memo['items'][tw['doc']]
+        # both parties see "lib.abi": the first in @RUN@/a, the twin in @RUN@/b
+        t = tmpl('@RUN@/a/lib.abi', True)
+        exe = C.exe(VARIANT, 'toolsim_abilint')
+        t['simf']['parties'] = [{'at': tw['at'], 'obj': 0, 'k': tw['k'], 'cmd': '%s --direct @RUN@/twin.json @RUN@/twin.res' % exe}]
+
+        def prepare(run):
+            import shutil
+            os.makedirs(os.path.join(run, 'a')); os.makedirs(os.path.join(run, 'b'))
+            shutil.copyfile(it['path'], os.path.join(run, 'a', 'lib.abi'))
+            shutil.copyfile(other['path'], os.path.join(run, 'b', 'lib.abi'))
+            spec = {'argv': ['abilint', '--diff', os.path.join(run, 'b', 'lib.abi')], 'stdout': os.path.join(run, 'twin.out'), 'stderr': os.path.join(run, 'twin.err'),
+                    'cwd': run, 'env': {'PATH': '/usr/bin:/bin', 'HOME': run, 'TMPDIR': run, 'LC_ALL': 'C'}}
+            open(os.path.join(run, 'twin.json'), 'w').write(json.dumps(spec) + '\n')
+        o = ctx.run('abilint', t, prepare=prepare, collect=('twin.res', 'twin.err'))
+    else:
+        t = tmpl(it['path'], True)
+        t['simf']['faults'] = fl
+        o = ctx.run('abilint', t)
     sf = o.res.get('simf', {})
     firedv = sf.get('fired', [])
     illegal = any(f and fl[j]['kind'] != 'short' for j, f in enumerate(firedv))
@@ -123,6 +161,17 @@ def execute(ctx, it, params):
         elif inj_err and o.exit == 0:
             verdict = ('diff-verdict-inconsistent', 'the temporary file could not be written completely (injected error), yet --diff exits 0')
     fired, sites = [], []
+    if tw:
+        pf = (sf.get('parties') or [[0, 0]])[0]
+        if pf[0]:
+            fired.append('second-party/at-' + tw['at'])
+            sites.append((it['name'], 'twin', tw['doc'], tw['at'], tw['k']))
+            st = pf[1]
+            twin_exit = (st >> 8) & 0xff if st >= 0 and (st & 0x7f) == 0 else -1
+            other = ctx.memo['items'][tw['doc']]
+            if verdict is None and o.klass[0] == 'exit' and twin_exit != other['diff_exit']:
+                verdict = ('diff-verdict-inconsistent', 'the concurrent `abilint --diff` on %s (same file name, other directory), run just before the %s of the first, exits %d; alone it exits %d' % (
+                    tw['doc'], tw['at'], twin_exit, other['diff_exit']))
     for j, f in enumerate(firedv):
         if f:
             x = fl[j]
@@ -131,14 +180,19 @@ def execute(ctx, it, params):
     if not fl:
         sites.append((it['name'], 'fault-free'))
     flushed = sf.get('system_calls', 0) == 0 or sf.get('bytes_at_system', [0])[0] == ob.get('bytes_w', 0)
+    if verdict and tw:
+        return F.Result(verdict, verdict[0] + ':concurrent-instance', fired, sites, digest=(o.exit, o.signal, twin_exit),
+                        info={'exit': o.exit, 'twin_exit': twin_exit, 'document_is_fixpoint': it['fixpoint'], 'twin': tw}, io_events=sf.get('io_events', 0), outcome=o.status_key())
     key = ('%s:%s' % (verdict[0], 'fault-free' if not illegal and not any(firedv) else 'short-writes' if not illegal else fl[0]['op'] + '-error')) if verdict else None
-    return F.Result(verdict, key, fired, sites, digest=(o.exit, o.signal, sf.get('io_hash')),
-                    info={'exit': o.exit, 'document_is_fixpoint': it['fixpoint'], 'bytes_in_temp_file_when_diff_started': sf.get('bytes_at_system', [0])[0],
+    return F.Result(verdict, key, fired, sites, digest=(o.exit, o.signal, sf.get('io_hash') if not tw else twin_exit),
+                    info={'exit': o.exit, 'twin': tw, 'twin_exit': twin_exit, 'document_is_fixpoint': it['fixpoint'], 'bytes_in_temp_file_when_diff_started': sf.get('bytes_at_system', [0])[0],
                           'bytes_written_to_temp_file': ob.get('bytes_w'), 'flushed_before_diff': flushed},
                     io_events=sf.get('io_events', 0), outcome=o.status_key())
 
 
 def plan_size(plan):
+    if plan['params'].get('twin'):
+        return (0, 0)
     fl = plan['params']['faults']
     return (len(fl), fl[0]['k'] if fl else 0)
 
